@@ -176,8 +176,30 @@ struct ScopedExprBuilder : ExpressionBuilder
     size_t nfrag() { return fragments.size(); }
 };
 
-struct TigaProbe
+/** Captures the raw query expression (before TigaPropertyBuilder strips control: wrappers); modelled on the
+ * repository's own test fixture (test/document_fixture.h, QueryBuilder). */
+struct RawQueryBuilder : StatementBuilder
 {
+    std::vector<expression_t> raw;
+    explicit RawQueryBuilder(Document& d): StatementBuilder(d) {}
+    void property() override
+    {
+        if (fragments.size() == 0)
+            throw std::logic_error("no query fragment");
+        raw.push_back(fragments[0]);
+        fragments.pop();
+    }
+    void strategy_declaration(const char*) override {}
+    void subjection(const char*) override {}
+    void imitation(const char*) override {}
+    void scenario(const char*) override {}
+    void handle_expect(const char*) override {}
+    bool allowProcessReferences() override { return true; }
+    variable_t* addVariable(type_t, const std::string&, expression_t, position_t) override
+    {
+        throw NotSupportedException("addVariable");
+    }
+    bool addFunction(type_t, const std::string&, position_t) override { throw NotSupportedException("addFunction"); }
 };
 
 static xta_part_t part_by_name(const std::string& n, bool& ok)
@@ -635,6 +657,58 @@ struct Child
                 w.end();
             }
             w.end();
+            if (flags.find('w') != std::string::npos && d.get_errors().empty()) {
+                // raw query expression: print, re-parse, compare
+                size_t errs0 = d.get_errors().size();
+                try {
+                    RawQueryBuilder rb(d);
+                    parseProperty(s.args[i].c_str(), &rb);
+                    w.key("raw").arr();
+                    for (auto& e : rb.raw) {
+                        w.obj();
+                        w.key("dump").str(dm.expr(e));
+                        std::string s1;
+                        bool printed = false;
+                        try {
+                            s1 = e.str();
+                            printed = true;
+                            w.key("str").str(s1);
+                        } catch (const std::exception& ex) {
+                            w.key("str_exc").str(demangle(typeid(ex).name()));
+                        }
+                        if (printed) {
+                            size_t before = d.get_errors().size();
+                            try {
+                                RawQueryBuilder rb2(d);
+                                // earlier lines of the same text stay in scope (strategy declarations)
+                                parseProperty(s1.c_str(), &rb2);
+                                w.key("re_exc").null();
+                                w.key("re_nerr").num((long long)(d.get_errors().size() - before));
+                                if (d.get_errors().size() > before)
+                                    w.key("re_err0").str(d.get_errors()[before].msg);
+                                w.key("re_n").num((long long)rb2.raw.size());
+                                if (!rb2.raw.empty()) {
+                                    w.key("re_dump").str(dm.expr(rb2.raw.back()));
+                                    try {
+                                        w.key("re_str").str(rb2.raw.back().str());
+                                    } catch (const std::exception& ex) {
+                                        w.key("re_str_exc").str(demangle(typeid(ex).name()));
+                                    }
+                                }
+                            } catch (const std::exception& ex) {
+                                w.key("re_exc").str(demangle(typeid(ex).name()));
+                            }
+                        }
+                        w.end();
+                    }
+                    w.end();
+                } catch (const std::exception& ex) {
+                    w.key("raw_exc").str(demangle(typeid(ex).name()));
+                }
+                (void)errs0;
+                d.clear_errors();
+                d.clear_warnings();
+            }
             w.end();
         }
         w.end();
